@@ -351,6 +351,45 @@ def one_case(ctx, idx):
         p.close()
 
 
+def alternating_case(ctx, idx):
+    """Back-to-back explicit re-exchanges started alternately by the two sides from one
+    harness thread: the next renegotiate_keys() is called the moment the previous one
+    returned, i.e. while the *other* side may still be finishing that exchange."""
+    p = pair.Pair(ctx.rng, client_cls=pair.WatchedTransport, server_cls=pair.WatchedTransport)
+    try:
+        if not p.start() or not p.auth():
+            ctx.inconclusive("C11 pair failed to start %r %r" % (p.client_exc, p.server_exc))
+            return
+        c, s = p.session()
+        n = 0
+        for k in range(6):
+            who = p.tc if (idx + k) % 2 else p.ts
+            try:
+                who.renegotiate_keys()
+                n += 1
+            except Exception as e:
+                hist = [x for t in (p.tc, p.ts) for x in getattr(t, "exc_history", [])
+                        if not isinstance(x, (EOFError, OSError))]
+                cause = hist[0] if hist else e
+                ctx.violation("back-to-back re-exchange failed (%s)" % type(cause).__name__,
+                              "renegotiate_keys #%d (started by the %s right after the previous exchange returned) "
+                              "raised %r; cause %r" % (k, "client" if who is p.tc else "server", e, cause),
+                              dict(case=dict(kind="alternating", index=k)))
+                break
+        ctx.count("back_to_back_reexchanges_completed", n)
+        if n == 6:
+            data = bytes(range(200))
+            c.sendall(data)
+            got = _drain(s, len(data))
+            if got != data:
+                ctx.violation("channel bytes lost or reordered across the re-exchange",
+                              "after 6 back-to-back re-exchanges got %d of %d bytes" % (len(got), len(data)),
+                              dict(case=dict(kind="alternating")))
+        ctx.case(("alternating", idx, ctx.shard), sample=dict(kind="alternating", completed=n) if idx < 1 else None)
+    finally:
+        p.close()
+
+
 def _expect_reject(fn):
     try:
         fn()
@@ -395,5 +434,10 @@ def run(ctx):
         if time.time() > dl:
             break
         ctx.guard(one_case, ctx, i)
+    for i in range(ctx.pick(8, 60)):
+        if time.time() > dl + 60:
+            break
+        ctx.guard(alternating_case, ctx, i)
+    ctx.require("back_to_back_reexchanges_completed", 100)
     ctx.require("connection_msgs_delivered_inside_kex_window", 20)
     ctx.require("idle_reexchanges_after_busy_one", 10)
